@@ -56,6 +56,25 @@ claim(
     "Bounded to <= 6 operations / 3 machines / durations <= 3; relies on semi-active schedules containing an optimum.",
 )
 
+claim(
+    "C09",
+    "fault enumeration: every invalid request of a finite alphabet injected at every node of every dispatch-history tree (1 fault; thorough: all ordered pairs) on the real Dispatcher with all built-in observers and on the real Gym environment; differential oracle against a fault-free rebuild",
+    "Exhaustive over (history prefix, fault) for the small-scope families: exception raised, complete snapshot (tracking, schedule, every query, every observer, graph, env observation) unchanged, continuation identical to the fault-free run.",
+    "Bounded to <= 2 consecutive faults and the listed families; any exception type counts as a rejection.",
+)
+claim(
+    "C10",
+    "explicit-state BFS of a subscription-protocol model (dispatch/fault/reset/subscribe/unsubscribe/resubscribe/second singleton/create_or_get events); every model transition executed on the real Dispatcher after replaying the state's representative trace; recorder observers log sequence numbers and in-update snapshots",
+    "All reachable protocol states up to the BFS depth bound for 3-4 tiny instances and <= 3 recorder objects; every transition's notifications (who, order, once, post-state) are compared with the model.",
+    "Depth-bounded (states first reached at the bound are not expanded; count reported); double subscription of one object through bare subscribe() is outside the alphabet.",
+)
+claim(
+    "C13",
+    "stateless exhaustive DFS over all dispatch histories (every machine choice) with both reward observers attached; telescoping-sum oracle from the reference model; same histories as action sequences of the real SingleJobShopGraphEnv",
+    "Every prefix of every history of the families: one reward per dispatch, non-positive, running sums equal minus makespan / idle time of the reference; env.step returns exactly the appended reward.",
+    "Bounded to the listed families.",
+)
+
 PENDING = {
     f"C{n:02d}": "check not built yet in this revision (planned: bounded exhaustive exploration, see DESIGN.md)"
     for n in range(1, 21)
